@@ -3,6 +3,8 @@
 -/
 import Rl2tp.Proofs.Control
 import Rl2tp.Model.Hide
+import Rl2tp.Proofs.GenSizes
+import Rl2tp.Proofs.GenKinds
 namespace Rl2tp.C07
 
 /-! ### an independent length walker (`Tiles`) -/
@@ -262,5 +264,19 @@ example : writeControl [0xAA] ⟨0, 1, 2, 3, 4, [.messageType .hello]⟩ =
 example (v : Bytes) (h : v.length = 1018) : 6 + (AVP.hostName v).getLength > 1023 := by
   show 6 + v.length > 1023
   omega
+
+/-- the source's `LENGTH_BITS` (from which it derives `MAX_LENGTH = (1 << LENGTH_BITS) - 1`) and `Header::LENGTH` are the
+    10 and the 6 the bounds above are stated with (re-read by bin/gentables on every run) -/
+theorem source_length_bits :
+    GenSizes.cc "LENGTH_BITS" = 10 ∧ 2 ^ GenSizes.cc "LENGTH_BITS" - 1 = 1023 ∧ GenSizes.cc "HEADER_LENGTH" = 6 ∧
+    GenSizes.cc "ATTRIBUTE_TYPE_SIZE" = 2 :=
+  ⟨GenSizes.codec_constants_pinned.2.2.1, GenSizes.codec_constants_pinned.2.2.2.2.2.2.2.2.2, GenSizes.codec_constants_pinned.2.2.2.2.1,
+   GenSizes.codec_constants_pinned.2.1⟩
+
+/-- where the source's `get_length` returns a constant (`Self::LENGTH`, or 0), the model's `getLength` of a value of that
+    kind is that constant (re-read by bin/gentables on every run) -/
+theorem source_fixed_lengths :
+    ∀ r ∈ Gen.typeConstants, ∀ l, r.2.2.2.2 = some l → (GenKinds.sampleAvp r.1).map AVP.getLength = some l :=
+  GenKinds.fixed_lengths_is_model
 
 end Rl2tp.C07
